@@ -895,6 +895,9 @@ def saver_case(ctx, case):
                                 metaForm={"none": "none", "dict": "dict", "callable": "callable"}.get(case["meta"], "other"), metadataOnly=bool(case["mo"]),
                                 queries=[{"cwd": comps(os.path.join(base, cwd)), "epoch": e} for e, cwd in events])
             thm = "C11_saver_path"
+            # what an undocumented `metadata` object or a file name that is no one-blank format string does is not constrained by the property
+            # text (the present code refuses at the first write): compared with the model at aux level only
+            lvl = "aux" if case["meta"].startswith("other") or case["fname"] >= 3 else "property"
             ctx.point("saver.init.refused", "property", init_err is not None, m["initError"] is not None, cs, exact=True, sig="saver/init-refused", theorem=thm)
             if init_err is None and m["initError"] is None:
                 mod = []
@@ -909,7 +912,7 @@ def saver_case(ctx, case):
                     ref = any(x["refused"] for x in mod)
                     mod = {"refused": ref, "wrote": None if ref else sorted({tuple(p) for x in mod for p in x["wrote"]})}
                     mod["wrote"] = None if ref else [list(p) for p in mod["wrote"]]
-                ctx.point("saver.files", "property", so.tuplify(impl), so.tuplify(mod), cs, exact=True, sig="saver/files", theorem=thm)
+                ctx.point("saver.files", lvl, so.tuplify(impl), so.tuplify(mod), cs, exact=True, sig="saver/files", theorem=thm)
         ctx.case({k: v for k, v in case.items()}, nontrivial=init_err is None and not case["abs"], sample={"saver": {k: case[k] for k in ("folder", "abs", "meta", "mode")}})
     finally:
         os.chdir(old_cwd)
